@@ -12,13 +12,13 @@ import (
 // PlusKinds are the features of the wider class W+ (C09 only).
 var PlusKinds = []string{"ptrIntoOperation", "ptrNestedInline", "ptrMissingPosition", "ptrInPtrTarget", "ptrCycle", "auxBackRef", "collisionWithRefs",
 	"danglingLocalDef", "danglingRemoteFile", "danglingRemoteFragment", "recursiveContainers", "wholeDocSchema", "paramRefToNonParam", "responseRefToNonResponse",
-	"ptrToNonSchema", "refWithSiblings", "absoluteSelfRef", "itemsRef", "deepNesting", "pathItemRefDangling", "selfRefDefinition", "ptrToSelf", "sharedRefToRemote", "sharedRefToMissing", "wholeDocPointerNested"}
+	"ptrToNonSchema", "refWithSiblings", "absoluteSelfRef", "itemsRef", "deepNesting", "pathItemRefDangling", "selfRefDefinition", "ptrToSelf", "sharedRefToRemote", "sharedRefToMissing", "wholeDocPointerNested", "httpRemote"}
 
 // MustErrorKinds: planted at a position reachable from an operation, Flatten must return an error (ContinueOnError off).
 var MustErrorKinds = map[string]bool{"ptrMissingPosition": true, "ptrCycle": true, "danglingRemoteFile": true, "danglingRemoteFragment": true, "sharedRefToMissing": true}
 
 // ResolvablePlusKinds never make a bundle unresolvable: they may be added to bundles used for load-fault enumeration.
-var ResolvablePlusKinds = []string{"sharedRefToRemote", "wholeDocSchema", "auxBackRef", "ptrIntoOperation", "ptrNestedInline", "recursiveContainers", "absoluteSelfRef"}
+var ResolvablePlusKinds = []string{"sharedRefToRemote", "wholeDocSchema", "auxBackRef", "ptrIntoOperation", "ptrNestedInline", "recursiveContainers", "absoluteSelfRef", "httpRemote"}
 
 // useRef makes ref reachable from an operation through the given holder.
 func (b *Bundle) useRef(ref string, holder string) {
@@ -210,6 +210,39 @@ func (b *Bundle) Plus(kind string) {
 		wd := Pick(b.rng, []string{"##", "##", "#/"})
 		jx.AsObj(jx.AsObj(b.Root["paths"])[p])["parameters"] = jx.Arr{jx.Obj{"name": "body", "in": "body",
 			"schema": jx.Obj{"allOf": jx.Arr{jx.Obj{"allOf": jx.Arr{jx.Obj{"allOf": jx.Arr{jx.Obj{"$ref": wd}}}}}}}}}
+	case "httpRemote":
+		// documents hosted over http (served from memory): relative, server-absolute and parent-relative
+		// references between them, a document named by its host only, one without file extension
+		base := "http://schemas" + k + ".test"
+		main := base + "/models/h.json"
+		b.AuxDef(main, "HA"+k, jx.Obj{"type": "object", "description": b.lbl("ha"), "properties": jx.Obj{
+			"rel":   jx.Obj{"$ref": "other.json#/definitions/HB" + k},
+			"local": jx.Obj{"$ref": "#/definitions/HC" + k},
+			"up":    jx.Obj{"$ref": "../up.json#/definitions/HE" + k},
+			"self":  jx.Obj{"type": "array", "items": jx.Obj{"$ref": "#/definitions/HA" + k}},
+		}})
+		b.AuxDef(main, "HC"+k, b.Obj())
+		// a server-absolute reference inside an http document (Flatten treats it as a local file path)
+		b.AuxDef(main, "HX"+k, jx.Obj{"type": "object", "description": b.lbl("hx"), "properties": jx.Obj{"abs": jx.Obj{"$ref": "/abs/x.json#/definitions/HD" + k}}})
+		b.AuxDef(base+"/models/other.json", "HB"+k, jx.Obj{"type": "object", "description": b.lbl("hb"), "properties": jx.Obj{"back": jx.Obj{"$ref": "h.json#/definitions/HC" + k}}})
+		b.AuxDef(base+"/abs/x.json", "HD"+k, b.Obj())
+		b.AuxDef(base+"/up.json", "HE"+k, b.Obj())
+		b.Aux[base+"/"] = jx.Obj{"type": "object", "description": b.lbl("host-only"), "properties": jx.Obj{"again": jx.Obj{"$ref": "#"}, "m": jx.Obj{"$ref": "models/h.json#/definitions/HC" + k}}}
+		b.Aux[base+"/noext"] = jx.Obj{"type": "object", "description": b.lbl("noext"), "properties": jx.Obj{"w": jx.Obj{"type": "string"}}}
+		refs := []string{main + "#/definitions/HA" + k, base + "/", base + "/noext", base + "/models/other.json#/definitions/HB" + k}
+		if b.Variant >= 0 {
+			b.useRef(refs[b.Variant%len(refs)], holder)
+			if b.Variant%len(refs) == 3 {
+				b.useRef(main+"#/definitions/HX"+k, holder)
+			}
+		} else {
+			if Chance(b.rng, 25) {
+				b.useRef(main+"#/definitions/HX"+k, holder)
+			}
+			for _, r := range refs[:1+b.rng.IntN(len(refs))] {
+				b.useRef(r, holder)
+			}
+		}
 	case "selfRefDefinition":
 		b.Def("Me"+k, jx.Obj{"$ref": "#/definitions/Me" + k})
 		b.useRef("#/definitions/Me"+k, holder)
